@@ -501,7 +501,7 @@ func (fi *fnInfo) symSite(ins ssa.Instruction, b *ssa.BasicBlock) (Site, bool) {
 		s.Class, s.Why = "SAFE", ""
 		return s, true
 	}
-	if safe, _ := fi.ZoneSafe(sl, req, extra, b); safe {
+	if zsafe, _ := fi.ZoneSafe(sl, req, extra, b); zsafe {
 		s.Class, s.Why = "SAFE", ""
 		s.Zone = true
 		return s, true
